@@ -472,16 +472,11 @@ func ruleUploadNumbering(r *Run) {
 				idxArg = c.Call.Args[0]
 			} else if h := c.Call.StaticCallee(); h != nil && inModule(h) && h != fn {
 				// a helper of the module that names the part by one of its parameters
-				// (`writeUpload(w, index, upload)`): the argument handed in for it is the name
-				for _, hi := range allInstrs(h) {
-					hc, ok := hi.(*ssa.Call)
-					if !ok || calleeName(&hc.Call) != "strconv.Itoa" {
-						continue
-					}
-					for pi, par := range h.Params {
-						if unwrap(hc.Call.Args[0]) == ssa.Value(par) && pi < len(c.Call.Args) {
-							idxArg = c.Call.Args[pi]
-						}
+				// (`writeUpload(w, index, upload)`, itself perhaps through `partName(index)`):
+				// the argument handed in for it is the name
+				for _, pi := range namingParams(h, 0) {
+					if pi < len(c.Call.Args) {
+						idxArg = c.Call.Args[pi]
 					}
 				}
 			}
@@ -811,4 +806,44 @@ func isAnswerBody(r *Run, fn *ssa.Function, v ssa.Value, depth int) bool {
 		}
 	}
 	return false
+}
+
+// namingParams: the parameters of h that h turns into a part name with strconv.Itoa — itself or
+// through a helper of the module (two levels) — on every path through h (a helper that returns
+// before it names the part skips the element as a `continue` in the loop would).
+func namingParams(h *ssa.Function, depth int) []int {
+	var out []int
+	if depth > 2 || len(h.Blocks) == 0 {
+		return nil
+	}
+	for _, hi := range allInstrs(h) {
+		hc, ok := hi.(*ssa.Call)
+		if !ok {
+			continue
+		}
+		var named []ssa.Value
+		if calleeName(&hc.Call) == "strconv.Itoa" {
+			named = append(named, hc.Call.Args[0])
+		} else if g := hc.Call.StaticCallee(); g != nil && inModule(g) && g != h {
+			for _, gi := range namingParams(g, depth+1) {
+				if gi < len(hc.Call.Args) {
+					named = append(named, hc.Call.Args[gi])
+				}
+			}
+		}
+		if len(named) == 0 {
+			continue
+		}
+		if ok, _ := mustPass(h.Blocks[0], 0, func(i ssa.Instruction) bool { return i == ssa.Instruction(hc) }); !ok {
+			continue
+		}
+		for _, v := range named {
+			for pi, par := range h.Params {
+				if unwrap(v) == ssa.Value(par) {
+					out = append(out, pi)
+				}
+			}
+		}
+	}
+	return out
 }
